@@ -20,7 +20,8 @@ def reads_field(fn, n, field):
 def check(run):
     fx = run.fx
     run.clause('reader table: channel::ep (true addresses) is read only by the index helpers, the capture call and the channel constructor path; user-visible peer endpoints come from visible_ep')
-    allowed = {CH + '::self_idx': 'identity', CH + '::remote_idx': 'identity', T + '::send_packet': 'capture records true addresses (C19)', S + '::internal_connect': 'initialises the channel'}
+    allowed = {CH + '::self_idx': 'identity', CH + '::remote_idx': 'identity', T + '::send_packet': 'capture records true addresses (C19)', S + '::internal_connect': 'initialises the channel',
+               T + '::internal_connect': 'path-MTU query for the accepted side needs the peer\'s true address (routing, not a user-visible view)'}
     readers = {}
     for fn in fx.repo_functions():
         for a in q.field_accesses(fn, {CH + '::ep'}):
